@@ -90,7 +90,7 @@ From TV Require Import Model.Engine Model.EngineToy Proofs.EngineMemo Proofs.Eng
   Proofs.EngineHidden Proofs.EngineBlind Proofs.EngineHiddenToy Proofs.EngineHistory.
 From TV Require Import Model.PlacementBase Gen.PlacementGen Model.Placement Proofs.PlacementBlind.
 From TV Require Model.Scale.
-From TV Require Import Model.EngineRel Model.BlockEngine Model.BlockEngineExample Proofs.BlockEngineBlind.
+From TV Require Import Model.EngineRel Model.BlockEngine Model.BlockEngineExample Proofs.BlockEngineBlind Proofs.BlockEngineHidden.
 Import ListNotations.
 
 (* ---------------------------------------------------------------------------------------------- zero clause *)
@@ -402,6 +402,13 @@ Theorem C05_block_real_sets_zero_on_hidden :
   forall (T : Type) (N : Num T) (pre : BStyle T -> BIn T -> BIn T),
     SetsZeroOnHidden (BStyle T) (BIn T) (ChildOut T) (BLayout T) bs_is_none (block_alg pre abs_child_block) b_zeroish.
 Proof. intros T N pre. apply block_alg_sets_zero_on_hidden. apply abs_child_block_local. Qed.
+
+(* the same for the dispatcher of the engine `vh blocktree` runs (`bl_algo` over BNode: "has children" decides, the leaf stores nothing) -- the
+   statement above is about block_alg over bare styles, which that engine reaches only through bl_algo (audit, wave 7b; Proofs/BlockEngineHidden.v) *)
+Theorem C05_bl_real_sets_zero_on_hidden :
+  forall (T : Type) (N : Num T) (pre : BStyle T -> BIn T -> BIn T),
+    SetsZeroOnHidden (BNode T) (BIn T) (ChildOut T) (BLayout T) bn_is_none (bl_algo pre abs_child_block) b_zeroish.
+Proof. intros T N pre. apply bl_algo_real_sets_zero_on_hidden. Qed.
 
 (* engines made of block containers (sel s = true) and leaves: replacing display:none subtrees changes nothing elsewhere *)
 Theorem C05_block_engine_hidden_invisible :
@@ -943,6 +950,7 @@ Print Assumptions C05_model_filters_are_source.
 Print Assumptions C05_block_algorithm_hidden_blind.
 Print Assumptions C05_block_algorithm_sets_zero_on_hidden.
 Print Assumptions C05_block_real_sets_zero_on_hidden.
+Print Assumptions C05_bl_real_sets_zero_on_hidden.
 Print Assumptions C05_block_engine_hidden_invisible.
 Print Assumptions C05_flex_algorithm_shape.
 Print Assumptions C05_flex_model_loops_are_source.
